@@ -610,7 +610,7 @@ Init ==
   /\ obs = [a |-> "init", arg |-> [kind |-> kind], tgt |-> "", den |-> <<>>,
             exp |-> [ret |-> "ok", p0 |-> AllView1(kind, Def1(kind)), p1 |-> AllView1(kind, Def1(kind)), shared |-> 0]]
 
-Step ==
+AnyOp ==
   \/ \E nc \in CanonNames(kind) : \E v \in Vals(PropOfName(kind, nc).pt) : Set(1, nc, v)
   \/ \E nc \in AliasNames(kind) \cup ExtraSetNames(kind) : \E v \in FewVals(PropOfName(kind, nc).pt) : Set(1, nc, v)
   \/ \E nc \in CanonNames(kind) : \E v \in FewVals(PropOfName(kind, nc).pt) : Set(2, nc, v)
@@ -621,7 +621,7 @@ Step ==
   \/ Scribble(1) \/ Scribble(2) \/ Fini(2) \/ Fini(1)
   \/ \E v \in ColVals : v.f = "txt" /\ CParse(v.c)
 
-Next == ops < MaxOps /\ ops' = ops + 1 /\ Step
+Next == ops < MaxOps /\ ops' = ops + 1 /\ AnyOp
 Spec == Init /\ [][Next]_vars
 
 ---------------------------------------------------------------------------
